@@ -121,8 +121,28 @@ func (o *OracleC09) AtEnd(s *Sim) {
 					locked = true
 				}
 			}
+			views := map[byte]bool{}
+			var lockView byte = 255
+			var maxView byte
+			for _, m := range o.live() {
+				if m.d == nil || m.d.BlockIndex != minH {
+					continue
+				}
+				views[m.d.ViewNumber] = true
+				if m.d.ViewNumber > maxView {
+					maxView = m.d.ViewNumber
+				}
+				if (m.d.CommitSent() || m.d.PreCommitSent()) && m.d.ViewNumber < lockView {
+					lockView = m.d.ViewNumber
+				}
+			}
 			if len(props) >= 2 && locked {
 				class = "stall_commit_lock_with_split_proposals"
+			} else if locked && lockView < maxView {
+				// Known protocol-level lock of dBFT 2.0 (neo-modules issue 792, discussed in
+				// the repository's formal-models/README): some validators are (pre)commit-
+				// locked in a lower view while the others have moved to a higher one.
+				class = "stall_commit_lock_across_views"
 			}
 			s.Violate("C09", class, fmt.Sprintf("%s is at height %d, %d expected within %d*T after GST (base %d, run ended by %q at %.1f s):%s", n, n.tip().Idx, o.base+o.K, 400, o.base, s.st.Truncated, float64(s.now)/1e9, state), n.id)
 			return
